@@ -1,6 +1,6 @@
 """C04 — errors, unwinding, finally: source level (KotoCore machine as oracle, replayed)."""
 import random
-import common, core_replay, gen_errors
+import common, core_replay, gen_errors, kast, vmtrace
 
 PROP = "C04"
 ASSUME = ["KotoCore.tla Unwind/Return encode docs/language_guide.md (Error Handling) and the property's statement "
@@ -22,8 +22,34 @@ def run(tier, seed):
              "by the machine.",
         assumptions=ASSUME, dev=("F28",))
     core_replay.pinned_known_findings(rep, PROP)
+    # VM level: the hook traces of the same programs are validated against KotoVm.tla
+    sample = progs[: (400 if quick else 4000)]
+    jobs = [{"id": p["id"], "src": kast.render(p["ast"]), "limit_ms": 5000} for p in sample]
+    res = vmtrace.record(jobs)
+    traces = [{"id": r["id"], "events": vmtrace.with_observe(r)} for r in res if r.get("events")]
+    verdicts, tst = vmtrace.validate(traces, tag="c04")
+    for t, job in zip(traces, jobs):
+        v = verdicts.get(t["id"])
+        if v and not v["ok"]:
+            rep.violation("trace_%s" % t["id"], {"property": PROP, "why": "VM trace rejected by KotoVm.tla at event %d: %s" % (v["at"], v["why"]),
+                                                 "source": [j["src"] for j in jobs if j["id"] == t["id"]][0],
+                                                 "events_before": t["events"][max(0, v["at"] - 6): v["at"]]})
+    rep.coverage["vm_traces_validated"] = len(traces)
+    rep.coverage["hook_events_validated"] = sum(len(t["events"]) for t in traces)
+    rep.coverage["states"] += tst["states"]
+    rep.coverage["transitions"] += tst["transitions"]
+    rep.coverage["traces_validated_against_impl"] += len(traces)
     return rep.finish()
 
 
 def replay(path):
+    import json
+    d = json.load(open(path))
+    if "predicted" not in d:
+        res = vmtrace.record([{"id": "replay", "src": d["source"], "limit_ms": 5000}])
+        ver, _ = vmtrace.validate([{"id": "replay", "events": vmtrace.with_observe(res[0])}], tag="c04r", shards=1)
+        print(d["source"]); print(ver["replay"])
+        if not ver["replay"]["ok"]:
+            print("VIOLATION property=%s replay=%s" % (PROP, path)); return 1
+        return 0
     return core_replay.generic_replay(PROP, path)
